@@ -134,11 +134,13 @@ pub fn show_bytes(b: &[u8]) -> String {
 }
 
 pub fn hex(b: &[u8]) -> String {
-    let mut s = String::with_capacity(b.len() * 2);
+    const T: &[u8; 16] = b"0123456789abcdef";
+    let mut s = Vec::with_capacity(b.len() * 2);
     for &c in b {
-        let _ = write!(s, "{:02x}", c);
+        s.push(T[(c >> 4) as usize]);
+        s.push(T[(c & 15) as usize]);
     }
-    s
+    String::from_utf8(s).unwrap()
 }
 
 pub fn unhex(s: &str) -> Option<Vec<u8>> {
